@@ -303,6 +303,13 @@ impl Server {
                 rename::handle_rename(params, req.id.clone(), self)
             }
 
+            #[cfg(feature = "verif-hooks")]
+            "verif/state" => {
+                let state = self.world.verif_state();
+                self.reply(Response::new_ok(req.id.clone(), state));
+                Ok(())
+            }
+
             DocumentDiagnosticRequest::METHOD => {
                 debug!("diagnostic request");
                 let params: DocumentDiagnosticParams = serde_json::from_value(req.params).unwrap();
